@@ -258,11 +258,13 @@ def run(ctx: Ctx, tier: str) -> Result:
         got = ctx.expand.expand(ba[role], reg) if role in ba else []
         want = P(reg, i)
         def copy_of(x, want=None):
-            # a shallow copy of the caller's object carries the same content
+            # a shallow copy of the caller's object carries the same content (text of an expanded value)
             import re as _re
             w_ = _re.escape(want) if want else r"@\w+"
-            l_ = r"(?:%s|<loop:%s>)" % (w_, w_.lstrip("@").replace("\\@", ""))
-            return _re.fullmatch(r"(?:dict|list|tuple)\(%s(?: or (?:\{\}|\[\]|\(\)))?\)|%s\.copy\(\)|\{\*\*%s\}|\[\*%s\]|list\(%s\)" % (l_, l_, l_, l_, l_), x) is not None
+            l_ = r"(?:%s|<loop:%s>)" % (w_, w_.lstrip("@"))
+            one = r"(?:(?:dict|list|tuple)\(%s(?: or (?:\{\}|\[\]|\(\)))?\)|%s\.copy\(\)|\{\*\*%s\}|\[\*%s\])" % (l_, l_, l_, l_)
+            emp = r"(?:\{\}|\[\]|\(\))"
+            return _re.fullmatch(r"%s|%s if %s is None else %s|%s if %s is not None else %s|%s if %s else %s" % (one, emp, l_, one, one, l_, emp, one, l_, emp), x) is not None
         if (want in got or any(copy_of(x, want) for x in got)) and all(x == want or x in ("[]", "{}") or copy_of(x, want) for x in got):
             res.ok("C13.API", {role: got})
         else:
